@@ -15,21 +15,35 @@ def run(ctx):
     build.extract_and_driver()
     h = build.harness()
     quick = ctx.tier == 'quick'
-    ctx.extra['rule'] = ('pairs and triples of markers from random histories: cmp vs the extracted structural order m_cmp on the dumps; == <=> cmp Equal <=> '
+    ctx.extra['rule'] = ('pairs and triples of markers from random histories and near-miss pairs (markers differing in one value / child / bound): cmp vs the extracted structural order m_cmp on the dumps; == <=> cmp Equal <=> '
                          'identical dumps; equal => equal hashes; antisymmetry and transitivity on the crate; the sorted order of the same marker texts in a '
                          'second process with a different history and parse order; Requirement / VerbatimUrl pairs (==, cmp both ways, hash; urls compared '
-                         'ignoring the verbatim text); non-trivial = distinct unordered pairs of different non-constant diagrams')
+                         'ignoring the verbatim text), also with RequirementOrigin values attached; non-trivial = distinct unordered pairs of different non-constant diagrams')
     sess = markers.Session(h)
     keys = markers.Keys(sess.p)
     regs, _ = c02.build_history(ctx, sess, 150 if quick else 500, 250 if quick else 1200)
     c20.extend_history(ctx, sess, regs, 60 if quick else 300)
+    # near misses: markers that differ in exactly one place (the value of an `in` / `contains` / extra / == node, one child, one bound):
+    # the pairs a comparison that skips a field cannot tell apart
+    fam = []
+    for a_, b_ in [("os_name in 'nt posix'", "os_name in 'linux'"), ("'nt' in os_name", "'posix' in os_name"), ("extra == 'a'", "extra == 'b'"),
+                   ("sys_platform not in 'a b'", "sys_platform not in 'a c'"), ("os_name == 'a'", "os_name == 'b'"), ("python_full_version >= '3.8'", "python_full_version >= '3.9'"),
+                   ("python_full_version >= '3.8'", "python_full_version > '3.8'"), ("os_name == 'a' and extra == 'x'", "os_name == 'a' and extra == 'y'"),
+                   ("python_version >= '3.8' or os_name in 'java'", "python_version >= '3.8' or os_name in 'nt'"), ("platform_machine in 'x'", "platform_system in 'x'")]:
+        ra, _ = sess.parse(a_)
+        rb, _ = sess.parse(b_)
+        if ra is not None and rb is not None:
+            fam.append((ra, rb))
+            regs += [ra, rb]
     cmds, meta = [], []
     n = 1500 if quick else 8000
     rels = {}
-    for _ in range(n):
+    for i_ in range(n):
         a, b = ctx.rng.choice(regs), ctx.rng.choice(regs)
         if ctx.rng.random() < .15:
             b = a
+        if i_ < 2 * len(fam):
+            a, b = fam[i_ // 2] if i_ % 2 == 0 else fam[i_ // 2][::-1]
         r = sess.ask(['rel', str(a), str(b)])
         ctx.evaluations += 1
         ctx.oracle_cases += 1
@@ -99,6 +113,19 @@ def run(ctx):
                 ueq, uc, uh, parsed_eq = urls[0] == 'T', urls[1], urls[2] == 'T', urls[3] == 'T'
                 if ueq != (uc == 'Eq') or (ueq and not uh) or ueq != parsed_eq:
                     ctx.failure('VerbatimUrl ==/cmp/hash incoherent or not on the parsed URL only', how)
+    # ... and with origins attached: every field that == looks at must also separate under cmp and hash
+    ORIGINS = ['none', ['file', S('requirements.txt')], ['file', S('other.txt')], ['project', S('/p'), S('proj')], ['project', S('/p'), S('other')], ['workspace']]
+    for a in REQS[:6]:
+        for b in REQS[:6]:
+            for oa in ORIGINS:
+                for ob in ORIGINS:
+                    r = sess.ask(['reqrel', S(a), S(b), oa, ob])
+                    ctx.oracle_cases += 1
+                    if r[0] != 'ok':
+                        continue
+                    eq, c1, c2, hs = r[1] == 'T', r[2], r[3], r[4] == 'T'
+                    if eq != (c1 == 'Eq') or {'Lt': 'Gt', 'Gt': 'Lt', 'Eq': 'Eq'}[c1] != c2 or (eq and not hs):
+                        ctx.failure('Requirement ==/cmp/hash incoherent: == %s cmp %s/%s hash-equal %s' % (eq, c1, c2, hs), {'a': a, 'b': b, 'origin_a': dump(oa), 'origin_b': dump(ob)})
     c02.monitor(ctx, sess, regs)
     sess.close()
     if not ctx.samples:
